@@ -292,7 +292,7 @@ static void plan(bool thorough, u64 sd)
 	seed(sd);
 	const int NR = thorough ? 4000 : 700;
 	static const int U1[] = { ISPOW2, CEILPOW2, NEXTPOW2, HBV, LBV, LOG2 };
-	static const int U1P[] = { FLOORPOW2, PREVPOW2, ROUNDPOW2, ABOVE, BELOW, NEAREST };     // signed: x >= 0 only
+	static const int U1P[] = { FLOORPOW2, PREVPOW2, ROUNDPOW2, ABOVE, BELOW, NEAREST };     // through the public findMSB / highestBitValue
 	static const int V1[] = { V_ISPOW2, V_CEILPOW2, V_NEXTPOW2, V_HBV, V_LOG2 };
 	static const int V1P[] = { V_FLOORPOW2, V_PREVPOW2, V_ROUNDPOW2 };
 	static const int B2[] = { CEILMUL, NEXTMUL, FLOORMUL, PREVMUL, ROUNDMUL, ISMUL };
@@ -305,7 +305,7 @@ static void plan(bool thorough, u64 sd)
 			u64 all = 1ull << w, nonneg = sg ? (1ull << (w - 1)) : all;
 			for (int op : U1) block(op, ty, 0, 0, 0, all, false);
 			block(V_ISPOW2, ty, 0, 0, 0, all, false);
-			for (int op : U1P) block(op, ty, 0, 0, 0, nonneg, false);
+			for (int op : U1P) block(op, ty, 0, 0, 0, all, false);
 			block(MASK, ty, 0, 0, 0, nonneg, false);
 			std::vector<u64> ms;
 			if (w == 8) for (u64 m = 1; m <= mmax; ++m) ms.push_back(m); else ms = multiples16(sg, thorough);
@@ -327,7 +327,7 @@ static void plan(bool thorough, u64 sd)
 			bool neg = sg && ((x >> (w - 1)) & 1);
 			if (w > 16) for (int op : U1) line(op, ty, x, 0, 0, 0);
 			for (int op : V1) line(op, ty, x, 0, 0, 0);
-			if (!neg) { if (w > 16) for (int op : U1P) line(op, ty, x, 0, 0, 0); for (int op : V1P) line(op, ty, x, 0, 0, 0); }
+			{ if (w > 16) for (int op : U1P) line(op, ty, x, 0, 0, 0); for (int op : V1P) line(op, ty, x, 0, 0, 0); }
 			// mask: any count for unsigned; non-negative for signed
 			if (!neg) { if (w > 16) line(MASK, ty, x, 0, 0, 0); line(V_MASK, ty, x, 0, 0, 0); line(MASK, ty, x % (2 * w + 2), 0, 0, 0); }
 			// multiples: m > 0
@@ -382,8 +382,8 @@ static void plan(bool thorough, u64 sd)
 		}
 	}
 	// ---- gtx/integer
-	{ std::vector<u64> hs = his(false, thorough ? 8192 : 64); for (u64 h : hs) block(NLZ, 10, h, 0, 0, 65536, false); }
-	{ std::vector<u64> hs = his(false, thorough ? 4096 : 28); for (u64 h : hs) { block(SQRTU, 10, h, 0, 0, 65536, false); block(SQRTS, 10, h, 0, 0, 65536, false); } }
+	{ std::vector<u64> hs = his(false, thorough ? 1024 : 64); for (u64 h : hs) block(NLZ, 10, h, 0, 0, 65536, false); }
+	{ std::vector<u64> hs = his(false, thorough ? 512 : 28); for (u64 h : hs) { block(SQRTU, 10, h, 0, 0, 65536, false); block(SQRTS, 10, h, 0, 0, 65536, false); } }
 	{
 		std::vector<u64> b32 = boundary(32);
 		for (u64 x : b32) { line(NLZ, 10, x, 0, 0, 0); line(SQRTU, 10, x, 0, 0, 0); line(SQRTS, 10, x, 0, 0, 0); for (u64 y = 0; y <= 33; ++y) { line(POWU, 10, x, y, 0, 0); line(POWS, 10, x, y, 0, 0); } }
